@@ -395,7 +395,29 @@ fn sizes(r: &mut Runner, count: usize) {
         let mut idx: Vec<usize> = (0..nl).map(|_| lo + r.rng.below((hl - lo) as u64) as usize).collect();
         idx.sort();
         idx.dedup();
-        let needle: Vec<char> = idx.iter().map(|&i| norm_any(hay[i], hr_ascii, &config)).collect();
+        let mut needle: Vec<char> = idx.iter().map(|&i| norm_any(hay[i], hr_ascii, &config)).collect();
+        // a third of the needles are perturbed so that they are (usually) no subsequence any more: a character doubled in
+        // place, two neighbours swapped, or a character that does not occur in the haystack appended
+        match r.rng.below(9) {
+            0 | 1 if !needle.is_empty() => {
+                let k = r.rng.below(needle.len().min(3) as u64) as usize;
+                let c = needle[k];
+                needle.insert(k, c);
+            }
+            2 if needle.len() >= 2 => {
+                let k = r.rng.below(needle.len() as u64 - 1) as usize;
+                needle.swap(k, k + 1);
+            }
+            3 => needle.push('q'),
+            _ => {}
+        }
+        if uni && needle.len() >= 2 && r.rng.chance(1, 2) {
+            // the doubled first character occurs once, early: only a scan that reuses a haystack character can match it
+            let c = 'z';
+            hay[1] = c;
+            needle[0] = c;
+            needle[1] = c;
+        }
         let nr_ascii = needle.iter().all(|c| c.is_ascii()) && r.rng.chance(4, 5);
         r.run_case(&Case { cfg, hr_ascii, nr_ascii, hay, needle });
     }
